@@ -122,13 +122,18 @@ Step(e) ==
                      !.decoded = IF e.path = << >> /\ ~NodeOK(e) THEN FALSE ELSE @]
      [] OTHER -> st
 
-Init == l = 1 /\ st = Fresh /\ TLCSet(1, {})
+\* vacuity accounting: number of getter comparisons that were actually judged (register 2); it
+\* leaves through the FAILS set as one pseudo-entry whose clause starts with "~"
+Judged(e) == IF e.ev = "getters" /\ ~Masked(e) THEN Len(e.items) ELSE 0
+
+Init == l = 1 /\ st = Fresh /\ TLCSet(1, {}) /\ TLCSet(2, 0)
 Next == /\ l <= Len(TraceLog)
         /\ LET e == TraceLog[l]  bad == Clauses(e) IN
              /\ IF bad # {} THEN TLCSet(1, TLCGet(1) \cup {<<e.tid, l, c>> : c \in bad}) ELSE TRUE
+             /\ IF Judged(e) > 0 THEN TLCSet(2, TLCGet(2) + Judged(e)) ELSE TRUE
              /\ st' = Step(e)
         /\ l' = l + 1
 Spec == Init /\ [][Next]_<<l, st>>
-Post == /\ PrintT(<<"FAILS", TLCGet(1)>>)
+Post == /\ PrintT(<<"FAILS", TLCGet(1) \cup {<<0, 1, "~judged:" \o ToString(TLCGet(2))>>}>>)
         /\ PrintT(<<"CONSUMED", TLCGet("stats").diameter - 1>>)
 =============================================================================
